@@ -22,6 +22,13 @@ OBLIGATIONS = (write_obls("w", quick=((0, 0, 0, -1), (0, 1, 0, -1)), thorough=()
                + open_obls("d", quick=((1, 1, 1, 2),), thorough=((2, 1, 1, 2),))
                + filenum_obls("e"))
 
+# g: a log is unlinked only when the MANIFEST no longer needs it (log_number / prev_log_number
+# keep rule of the real ldb_remove_obsolete_files) -- while an immutable memtable is unflushed
+# its log is the only durable copy of acknowledged writes; and a flush names the new log in the
+# MANIFEST only after the table was built (real ldb_compact_memtable)
+from obl.dbimpl_flushgc import gc_obls, flush_obls
+OBLIGATIONS += [o for o in gc_obls("g") if o.tier == "quick"][:2] + [o for o in flush_obls("g") if o.tier == "quick"][:1]
+
 META = {
     "level": "model_checking",
     "level_text": "Bounded model checking (CBMC) of the real recovery path of src/db_impl.c (#included, so the static functions run unchanged): ldb_recover, ldb_new_db, ldb_recover_log_file, ldb_write_level0_table, ldb_open, ldb_remove_obsolete_files, ldb_destroy_internal, plus ldb_write for the acknowledge side, the real quicksort of util/array.c and the real file-number allocator of version_set.c. Inputs are symbolic: the directory listing (file types and numbers), the counters recovered from the MANIFEST, the version's table set, the records of each log (sizes, sequences, counts, reported corruptions), the options, and the status of every env call. Asserted: success of a write implies its record was appended to the current log; reopening replays exactly the logs numbered >= log_number or == prev_log_number, each once, in ascending order, every record of >= 12 bytes once and in file order into a memtable that is written to a level-0 table recorded in the edit or kept as the live memtable; last_sequence and the file-number counter end above everything replayed; the edit that retires the old logs names the log that really is current and is applied before any file is removed.",
